@@ -22,7 +22,8 @@ every helper line and prints the provenance of each result pointer (`f` new, `x0
 comparisons, and the driver refuses (`heap-model-diverges`) if the heap model's values ever differ
 from the value model's.  Proof machinery: `Proof/IntervalHeap.lean`.
 -/
-import WuffsVerif.Proof.IntervalHeap
+import WuffsVerif.Proof.IntervalHeapRefine
+import WuffsVerif.Props.C06
 
 namespace WuffsVerif.Props.C06
 open WuffsVerif.Interval WuffsVerif.IntervalHeap
@@ -121,6 +122,84 @@ keeps no pointer of its argument. -/
 theorem inPlaceUnite_fresh (n : Nat) (z w : HIR) (hz : FreshR n z) :
     Safe n (inPlaceUnite z w) (FreshR n) :=
   inPlaceUnite_safe hz w
+
+/-! ## the heap model computes the values of the value model -/
+
+/-- REFINEMENT (partial: proved for the eight operators that never write to an existing object —
+add, sub, mul, quo, lsh, rsh, unite, intersect; for `And` / `Or`, whose helpers update new objects
+in place, the same agreement is checked by the driver on every harness line, not proved).
+On any heap in which the operand pointers are valid and the package-level objects hold their
+values, the operator returns without panic, keeps every existing cell (`Ext`), returns valid
+pointers, and the values behind them are exactly the value model's result (`none` = the same
+failure).  Hence every theorem of `Props/C06.lean` about `add … tryRsh` is a theorem about what
+the pointer-level code returns. -/
+theorem heap_refines_value_model_partial (op : Op) (hop : op ≠ .and ∧ op ≠ .or) (h : Heap)
+    (g : GlobalsOK h) (x y : HIR) (vx : VR h x) (vy : VR h y) :
+    ∃ r h', runOp op x y h = some (r, h') ∧ Ext h h' ∧ (∀ z, r = some z → VR h' z) ∧
+      pureOp op (viewAt h x) (viewAt h y) = some (r.map (viewAt h')) := by
+  have wrap : ∀ {m : HM (Option HIR)} {v : Option IR}, Tot m h (OkIs v) →
+      ∃ r h', m h = some (r, h') ∧ Ext h h' ∧ (∀ z, r = some z → VR h' z) ∧
+        some v = some (r.map (viewAt h')) := by
+    rintro m v ⟨r, h', e, x', vr, er⟩
+    exact ⟨r, h', e, x', vr, by rw [er]⟩
+  cases op with
+  | add => exact wrap (okRange_tot (add_tot h x y))
+  | sub => exact wrap (okRange_tot (sub_tot h x y))
+  | mul => exact wrap (okRange_tot (mulLsh_tot g vx vy false))
+  | quo => exact wrap (tryQuo_tot g vx vy)
+  | lsh => exact wrap (tryLsh_tot g vx vy)
+  | rsh => exact wrap (tryRsh_tot g vx vy)
+  | and => exact absurd rfl hop.1
+  | or => exact absurd rfl hop.2
+  | unite => exact wrap (okRange_tot (unite_tot h x y vx vy))
+  | intersect => exact wrap (okRange_tot (intersect_tot h x y))
+
+/-- non-vacuity, for ALL operand values: `setup X Y` (operands placed on top of the package-level
+objects, which is what the driver does for every harness line) satisfies the hypotheses of the
+refinement theorem, and the operand pointers hold `X` and `Y` -/
+theorem setup_satisfies_hypotheses (X Y : IR) :
+    GlobalsOK (setup X Y).2.2 ∧ VR (setup X Y).2.2 (setup X Y).1 ∧
+    VR (setup X Y).2.2 (setup X Y).2.1 ∧
+    viewAt (setup X Y).2.2 (setup X Y).1 = X ∧ viewAt (setup X Y).2.2 (setup X Y).2.1 = Y :=
+  setup_spec X Y
+
+/-- `TryQuo` never divides by zero: in the heap model `bigIntQuo` PANICS on a zero divisor
+(`combineQuo`), and yet `TryQuo` returns on every heap — the divisors it hands to `bigIntQuo` are
+bounds of the negative / positive parts of `y`, used only when those parts exist. -/
+theorem quo_never_divides_by_zero (h : Heap) (g : GlobalsOK h) (x y : HIR) (vx : VR h x)
+    (vy : VR h y) : ∃ r h', IntervalHeap.tryQuo x y h = some (r, h') := by
+  obtain ⟨r, h', e, _⟩ :=
+    heap_refines_value_model_partial .quo ⟨by decide, by decide⟩ h g x y vx vy
+  exact ⟨r, h', e⟩
+
+/-- transfer, an instance: what `Mul` returns at pointer level contains every product -/
+theorem heap_mul_sound (h : Heap) (g : GlobalsOK h) (x y : HIR) (vx : VR h x) (vy : VR h y)
+    (a b : Int) (ha : (viewAt h x).mem a) (hb : (viewAt h y).mem b) :
+    ∃ z h', runOp .mul x y h = some (some z, h') ∧ (viewAt h' z).mem (a * b) := by
+  obtain ⟨r, h', e, _, _, ev⟩ :=
+    heap_refines_value_model_partial .mul ⟨by decide, by decide⟩ h g x y vx vy
+  simp only [pureOp, Option.some.injEq] at ev
+  cases r with
+  | none => cases ev
+  | some z =>
+    simp only [Option.map_some, Option.some.injEq] at ev
+    exact ⟨z, h', e, ev ▸ mul_sound _ _ a b ha hb⟩
+
+/-- transfer, an instance with failure: `TryQuo` at pointer level fails exactly when the divisor
+range contains zero (both operands non-empty), and otherwise contains every truncated quotient -/
+theorem heap_quo_sound (h : Heap) (g : GlobalsOK h) (x y : HIR) (vx : VR h x) (vy : VR h y) :
+    ∃ r h', runOp .quo x y h = some (r, h') ∧
+      (r = none ↔ (viewAt h x).empty = false ∧ (viewAt h y).empty = false ∧ (viewAt h y).mem 0) ∧
+      ∀ z, r = some z → ∀ a b, (viewAt h x).mem a → (viewAt h y).mem b →
+        b ≠ 0 ∧ (viewAt h' z).mem (Int.tdiv a b) := by
+  obtain ⟨r, h', e, _, _, ev⟩ :=
+    heap_refines_value_model_partial .quo ⟨by decide, by decide⟩ h g x y vx vy
+  simp only [pureOp, Option.some.injEq] at ev
+  refine ⟨r, h', e, ?_, ?_⟩
+  · rw [← quo_fails_iff, ev]
+    cases r <;> simp
+  · rintro z rfl a b ha hb
+    exact quo_sound _ _ _ a b ha hb (by rw [ev]; rfl)
 
 /-! non-vacuity: the operators do run (return `some`) on concrete heaps, with operands placed on
 top of the package-level objects by `setup`; the last example shows what the theorem excludes —
